@@ -95,4 +95,6 @@ func GetMountOptions(path string) (fstype, opts string, err error) {
 // ---- accessors for the simulator's oracles ----
 
 func (f *Fork) VerifLabel() string     { return f.fqname }
-func (m *Metadata) VerifLabel() string { return m.fqname + "|" + m.finalPath }
+// (relative to the scratch root: in the shuffled map orders the label is hashed, and the
+// order must not depend on where the scratch directory lies)
+func (m *Metadata) VerifLabel() string { return m.fqname + "|" + vos.Rel(m.finalPath) }
